@@ -263,6 +263,7 @@ pub fn dispatch(cmd: &str, name: &str, arg: &str) -> Option<String> {
     }
     if name.starts_with("connect.") { return dispatch_connect(cmd, name, arg); }
     if name.starts_with("loopback.") { return dispatch_loopback(cmd, name, arg); }
+    if name.starts_with("skip.") { return dispatch_skipgrad(cmd, name, arg); }
     if !["conv", "deconv", "pool"].iter().any(|p| name.starts_with(p)) { return None; }
     std::panic::set_hook(Box::new(|_| {}));
     if cmd == "run" {
@@ -409,5 +410,70 @@ pub fn dispatch_loopback(cmd: &str, name: &str, arg: &str) -> Option<String> {
             return Some(format!("{{\"failed\":true,\"tried\":{},\"input\":{},\"detail\":{:?}}}", tried, fmt(n, into, outof, k, s, acc, seed), e));
         }
     }}}}}}}
+    Some(format!("{{\"failed\":false,\"tried\":{}}}", tried))
+}
+
+// ------------------------------------------------------------------------------------------------ skip-connection gradients (C16)
+/// n dense 1->1 linear layers without bias, integer weights, additive skip connections `conns` (source, target);
+/// L = y.  Every weight occurs once, so y is affine in each single weight and the step-1 finite difference is exact.
+fn skip_net(n: usize, conns: &[(usize, usize)], w: &[f32]) -> crate::network::Network {
+    let mut net = crate::network::Network::new(Shape::Single(1));
+    for _ in 0..n { net.dense(1, Activation::Linear, false, None); }
+    for (j, layer) in net.layers.iter_mut().enumerate() {
+        if let crate::network::Layer::Dense(l) = layer { l.weights = Tensor::double(vec![vec![w[j]]]); }
+    }
+    for (a, b) in conns { net.connect(*a, *b); }
+    net
+}
+pub fn skipgrad_one(n: usize, conns: &[(usize, usize)], seed: u64) -> Result<(), String> {
+    let mut rng = Lcg(seed.wrapping_mul(2654435761).wrapping_add(99));
+    let w: Vec<f32> = (0..n).map(|_| rng.int(1, 3)).collect();
+    let x = Tensor::single(vec![rng.int(1, 3)]);
+    let net = skip_net(n, conns, &w);
+    let (pre, act, maxp, fbs) = net.forward(&x);
+    let y = act.last().unwrap().get_flat()[0];
+    let (wg, _bg) = net.backward(Tensor::single(vec![1.0]), &pre, &act, &maxp, fbs);
+    for l in 0..n {
+        let mut w2 = w.clone();
+        w2[l] += 1.0;
+        let y2 = skip_net(n, conns, &w2).predict(&x).get_flat()[0];
+        let fd = y2 - y;
+        let got = match &wg[n - 1 - l].data { Data::Double(v) => v[0][0], Data::Single(v) => v[0], _ => panic!("unexpected weight-gradient rank") };
+        if got != fd {
+            return Err(format!("dy/dw[{}]: backward gives {} but the exact difference quotient is {} (weights {:?}, x {:?})", l, got, fd, w, x.get_flat()));
+        }
+    }
+    Ok(())
+}
+pub fn dispatch_skipgrad(cmd: &str, name: &str, arg: &str) -> Option<String> {
+    if name != "skip.gradient" { return None; }
+    if std::env::var("VERIF_SHOW_PANIC").is_err() { std::panic::set_hook(Box::new(|_| {})); }
+    let fmt = |n: usize, c: &Vec<(usize, usize)>, seed: u64| format!("{{\"layers\":{},\"connections\":{:?},\"seed\":{}}}", n, c.iter().map(|(a, b)| vec![*a, *b]).collect::<Vec<_>>(), seed);
+    let one = |n: usize, c: &Vec<(usize, usize)>, seed: u64| -> Result<(), String> {
+        let c2 = c.clone();
+        match std::panic::catch_unwind(move || skipgrad_one(n, &c2, seed)) { Ok(r) => r, Err(_) => Err("forward/backward panicked on accepted skip connections".into()) }
+    };
+    if cmd == "run" {
+        let v: Vec<u64> = arg.split(|c: char| !c.is_ascii_digit()).filter(|x| !x.is_empty()).filter_map(|x| x.parse().ok()).collect();
+        if v.len() < 2 || v.len() % 2 != 0 { return None; }
+        let n = v[0] as usize; let seed = v[v.len() - 1];
+        let c: Vec<(usize, usize)> = v[1..v.len() - 1].chunks(2).map(|p| (p[0] as usize, p[1] as usize)).collect();
+        return Some(match one(n, &c, seed) {
+            Ok(()) => format!("{{\"failed\":false,\"input\":{}}}", fmt(n, &c, seed)),
+            Err(e) => format!("{{\"failed\":true,\"input\":{},\"detail\":{:?}}}", fmt(n, &c, seed), e),
+        });
+    }
+    let mut tried = 0usize;
+    for n in 1..=4usize {
+        let mut pairs: Vec<(usize, usize)> = Vec::new();
+        for b in 0..n { for a in 0..=b { pairs.push((a, b)); } }
+        let mut sets: Vec<Vec<(usize, usize)>> = vec![vec![]];
+        for p in &pairs { sets.push(vec![*p]); }
+        for p in &pairs { for q in &pairs { if p.1 < q.1 { sets.push(vec![*p, *q]); } } }
+        for c in &sets { for seed in 0..2u64 {
+            tried += 1;
+            if let Err(e) = one(n, c, seed) { return Some(format!("{{\"failed\":true,\"tried\":{},\"input\":{},\"detail\":{:?}}}", tried, fmt(n, c, seed), e)); }
+        }}
+    }
     Some(format!("{{\"failed\":false,\"tried\":{}}}", tried))
 }
